@@ -43,8 +43,11 @@ type Report struct {
 	start    time.Time
 }
 
+var processStart = time.Now()
+
 func NewReport(prop, tier string) *Report {
-	return &Report{Property: prop, Tier: tier, Analysed: map[string]int{}, Rules: map[string]string{}, start: time.Now()}
+	// wall time includes loading, type-checking and SSA construction of /repo
+	return &Report{Property: prop, Tier: tier, Analysed: map[string]int{}, Rules: map[string]string{}, start: processStart}
 }
 
 func (r *Report) Add(o Obligation) { r.Obls = append(r.Obls, o) }
@@ -270,8 +273,10 @@ func (r *Report) Finish(verif string, level string, floors floorsFile, known *Kn
 		"analysed":            r.Analysed,
 		"known_findings_matched": len(knownHit),
 		"canaries":            map[string]any{"expected": len(canaryExpect), "failed": len(canaryFail), "skipped": canarySkipped != ""},
-		"thorough":            r.Thorough,
 		"exhaustive":          true,
+	}
+	if r.Thorough != nil {
+		cov["thorough"] = r.Thorough
 	}
 	assume := append([]string{
 		"the analysed build is linux/amd64 with -tags=verif; go/types and go/ssa model the program faithfully",
